@@ -76,6 +76,10 @@ func (d *Driver) Record(c Case, r Result) {
 	}
 	if r.CrashSkipped != "" {
 		d.CrashSkipped[r.CrashSkipped]++
+		if d.CrashSkipped[r.CrashSkipped] == 1 {
+			// keep the witness so that the owner of the totality property can be told
+			d.writeReplay(c, Violation{Clause: "crash-skipped", Sig: r.CrashSkipped, Msg: "crash of the code under test in a check that does not own totality of this entry point"}, fmt.Sprintf("skipped-%d", len(d.CrashSkipped)))
+		}
 	}
 	if r.Inconclusive != "" {
 		if len(d.Inconclusive) < 20 {
